@@ -287,7 +287,24 @@ def u810With (resume : US D → Nat → Meta → Except String (US D)) (s : US D
           | .ok s' => .ok { s' with plan := none }
           | .error e => .error e
 
-def u810 (s : US D) : Except String (US D) := u810With u810Resume s
+/-- Upgrade8To10 as it was before the empty-directory fix -/
+def u810Core (s : US D) : Except String (US D) := u810With u810Resume s
+
+/-- an EMPTY wsnapshots directory is never the product of the upgrade (the plan puts the complete
+directory in place by a rename): Upgrade8To10 first removes it -/
+def rmEmptyNew (s : US D) : US D :=
+  match s.new with
+  | some [] => { s with new := none }
+  | _ => s
+
+/-- what `store.HasData` (cmd/rqlited, before Store.Open when -auto-restore is given) does to the
+snapshot directories: opening a Snapshot Store on wsnapshots creates it -/
+def hasData (s : US D) : US D :=
+  match s.new with
+  | none => { s with new := some [] }
+  | _ => s
+
+def u810 (s : US D) : Except String (US D) := u810Core (rmEmptyNew s)
 
 inductive Cut810 (D : Type) where
   | start
@@ -303,7 +320,7 @@ inductive Cut810 (D : Type) where
 deriving Repr
 
 /-- the state an interrupted Upgrade8To10 leaves -/
-def u810Cut (s : US D) (c : Cut810 D) : US D :=
+def u810CutCore (s : US D) (c : Cut810 D) : US D :=
   match c with
   | .start => s
   | .planTmp =>
@@ -347,7 +364,20 @@ def u810Cut (s : US D) (c : Cut810 D) : US D :=
       else s
     | none => s
 
+/-- the state an interrupted Upgrade8To10 leaves: `start` = nothing done; otherwise the empty new
+directory (if any) has been removed first -/
+def u810Cut (s : US D) (c : Cut810 D) : US D :=
+  match c with
+  | .start => s
+  | c => u810CutCore (rmEmptyNew s) c
+
 /-! ### one node start (the part of Store.Open that concerns snapshots) -/
+
+/-- a start as it was before the empty-directory fix -/
+def startCore (e : D) (s : US D) : Except String (US D) :=
+  match u78 e s with
+  | .error err => .error err
+  | .ok s1 => u810Core s1
 
 def start (e : D) (s : US D) : Except String (US D) :=
   match u78 e s with
@@ -371,5 +401,13 @@ def startCut (e : D) (s : US D) : StartCut D → US D
     match u78 e s with
     | .error _ => u78Cut e s .start
     | .ok s1 => u810Cut s1 c
+
+/-- the same before the empty-directory fix -/
+def startCutCore (e : D) (s : US D) : StartCut D → US D
+  | .in78 c => u78Cut e s c
+  | .in810 c =>
+    match u78 e s with
+    | .error _ => u78Cut e s .start
+    | .ok s1 => u810CutCore s1 c
 
 end RqModel.Upgrade
